@@ -78,6 +78,7 @@ pub fn run(cfg: &RunCfg) -> Ctx {
     let mm = m.clone();
     all.merge(par_cases(cfg, "matrix", n * reps, || (), move |_, rng, ctx, i| case(rng, ctx, mm[(i % n) as usize], i / n)));
     all.merge(par_cases(cfg, "https-without-tls", 6, || (), |_, rng, ctx, i| no_tls_case(rng, ctx, i)));
+    all.merge(par_cases(cfg, "client-ca-without-certificate", 24, || (), |_, rng, ctx, i| bad_client_ca_case(rng, ctx, i)));
     all.add("matrix.size", n);
     for k in ["expect.success", "expect.fail.chain", "expect.fail.name", "expect.fail.alpn", "expect.fail.client_auth", "observed.handshake_records", "observed.peer_certs_some", "observed.peer_certs_none"] {
         all.floor(k, 5);
@@ -145,6 +146,9 @@ fn case(rng: &mut Rng, ctx: &mut Ctx, c: Cfg, rep: u64) {
     let seed = rng.u64();
     // repetition 0 is the plain cell; later repetitions vary what must not matter: builder call
     // order, eager or lazy connect, and which non-matching name is configured
+    let call_shape = if rep == 0 { crate::svc::Shape::Unary } else { *rng.pick(&crate::svc::SHAPES) };
+    // `Endpoint::origin` changes the :authority the requests carry, never whom TLS authenticates
+    let origin: Option<&'static str> = if rep == 0 { None } else { *rng.pick(&[None, None, Some("https://verif.test"), Some("https://other.test"), Some("http://verif.test:80")]) };
     let (server_order, client_order, lazy_connect, wrong_name) = if rep == 0 {
         (0u64, 0u64, false, "other.test")
     } else {
@@ -154,6 +158,10 @@ fn case(rng: &mut Rng, ctx: &mut Ctx, c: Cfg, rep: u64) {
         ctx.distinct("wrong_names", wrong_name);
     }
     ctx.distinct("builder_orders", &format!("s{}c{}l{}", server_order, client_order, lazy_connect as u8));
+    ctx.count(&format!("shape.{:?}", call_shape));
+    if origin.is_some() {
+        ctx.count("cfg.origin_set");
+    }
     let rt = paused_rt();
     let handler = Handler::new();
     let pipes: Arc<Mutex<Vec<PipeHandle>>> = Arc::new(Mutex::new(Vec::new()));
@@ -255,7 +263,12 @@ fn case(rng: &mut Rng, ctx: &mut Ctx, c: Cfg, rep: u64) {
                 },
             };
         }
-        let connected = match Endpoint::from_static(uri).tls_config(tls) {
+        let ep0 = match origin {
+            // set before tls_config, as an application that configures its endpoint top-down does
+            Some(o) => Endpoint::from_static(uri).origin(o.parse().expect("verif-harness-bug: origin uri")),
+            None => Endpoint::from_static(uri),
+        };
+        let connected = match ep0.tls_config(tls) {
             // a configuration that is refused outright is a rejection too (nothing is ever sent)
             Err(e) => Ok(Err(format!("client tls_config: {}", e))),
             Ok(ep) if lazy_connect => Ok(Ok(ep.connect_with_connector_lazy(connector))),
@@ -266,12 +279,17 @@ fn case(rng: &mut Rng, ctx: &mut Ctx, c: Cfg, rep: u64) {
             Ok(Err(e)) => (false, e),
             Ok(Ok(ch)) => {
                 let mut client = VerifClient::new(ch);
-                let mut req = tonic::Request::new(Msg { data: vec![9; 40], seq: 7, tag: "tls".into() });
-                req.metadata_mut().insert("x-script", "tls".parse().unwrap());
-                match tokio::time::timeout(Duration::from_secs(60), client.unary(req)).await {
+                // repetition 0 is a unary call; later repetitions use any of the four shapes (the
+                // verified peer must be visible to every kind of handler)
+                let spec = crate::svc::CallSpec { id: "tls".into(), shape: call_shape, req_msgs: vec![Msg { data: vec![9; 40], seq: 7, tag: "tls".into() }, Msg { data: vec![8; 4], seq: 8, tag: "tls".into() }], req_meta: vec![], req_pend: vec![], req_gaps_ms: vec![], timeout: None };
+                match tokio::time::timeout(Duration::from_secs(60), crate::svc::do_call(&mut client, &spec, None)).await {
                     Err(_) => return Err("call did not resolve within 60 virtual seconds".to_string()),
-                    Ok(Ok(_)) => (true, String::new()),
-                    Ok(Err(s)) => (false, format!("call: {:?} {}", s.code(), s.message())),
+                    Ok(view) => match (&view.call_err, &view.end) {
+                        (Some(s), _) => (false, format!("call: code {} {}", s.code, s.message)),
+                        (None, Some(Err(s))) => (false, format!("stream: code {} {}", s.code, s.message)),
+                        (None, Some(Ok(()))) if view.finished => (true, String::new()),
+                        _ => (false, "call did not finish".to_string()),
+                    },
                 }
             }
         };
@@ -397,4 +415,84 @@ fn no_tls_case(rng: &mut Rng, ctx: &mut Ctx, i: u64) {
         }
     }
     ctx.fingerprint(format!("no-tls|{}", lazy), true);
+}
+
+/// A server told to authenticate clients against a CA file that contains no usable certificate:
+/// the configuration is refused, or nobody gets in - an anonymous client is never served.
+fn bad_client_ca_case(rng: &mut Rng, ctx: &mut Ctx, i: u64) {
+    let variants: [(&str, String); 6] = [
+        ("private-key-file", SERVER_KEY.to_string()),
+        ("empty", String::new()),
+        ("trusted-certificate-label", CCA1.replace("BEGIN CERTIFICATE", "BEGIN TRUSTED CERTIFICATE").replace("END CERTIFICATE", "END TRUSTED CERTIFICATE")),
+        ("plain-text", "this is not a PEM file\n".to_string()),
+        ("truncated", CCA1.chars().take(CCA1.len() / 2).collect()),
+        ("crl-label", CCA1.replace("BEGIN CERTIFICATE", "BEGIN X509 CRL").replace("END CERTIFICATE", "END X509 CRL")),
+    ];
+    let (vname, pem) = variants[(i as usize) % variants.len()].clone();
+    let optional = (i / variants.len() as u64) % 2 == 1;
+    let ca_first = rng.bool();
+    ctx.begin("bad-client-ca", json!({"client_ca_file": vname, "client_auth_optional": optional, "client_ca_root_before_identity": ca_first}));
+    let rt = paused_rt();
+    let handler = Handler::new();
+    let h2 = handler.clone();
+    let seed = rng.u64();
+    let r: Result<&'static str, String> = rt.block_on(async move {
+        let mut tls = ServerTlsConfig::new();
+        if ca_first {
+            tls = tls.client_ca_root(Certificate::from_pem(pem.clone())).identity(Identity::from_pem(SERVER_PEM, SERVER_KEY));
+        } else {
+            tls = tls.identity(Identity::from_pem(SERVER_PEM, SERVER_KEY)).client_ca_root(Certificate::from_pem(pem.clone()));
+        }
+        if optional {
+            tls = tls.client_auth_optional(true);
+        }
+        let router = match Server::builder().tls_config(tls) {
+            Err(_) => return Ok("config-refused"),
+            Ok(mut b) => b.add_service(VerifServer::new(h2)),
+        };
+        let (tx, rx) = mpsc::unbounded_channel();
+        let st = tokio::spawn(async move {
+            let _ = router.serve_with_incoming(crate::props::c14::Incoming(rx)).await;
+        });
+        let connector = tower::service_fn(move |_uri: http::Uri| {
+            let tx = tx.clone();
+            async move {
+                let (a, b, _h) = pipe("tls", PipeCfg::plain(), Rng::new(seed), None);
+                let _ = tx.send(Ok::<_, std::io::Error>(b));
+                Ok::<_, std::io::Error>(TokioIo::new(a))
+            }
+        });
+        // an anonymous client that trusts the server
+        let ctls = ClientTlsConfig::new().ca_certificate(Certificate::from_pem(CA1)).domain_name("verif.test");
+        let ep = Endpoint::from_static("https://verif.test:443").tls_config(ctls).map_err(|e| format!("client tls_config: {}", e))?;
+        let out = match tokio::time::timeout(Duration::from_secs(60), ep.connect_with_connector(connector)).await {
+            Err(_) => return Err("connect hang".to_string()),
+            Ok(Err(_)) => "refused",
+            Ok(Ok(ch)) => {
+                let mut client = VerifClient::new(ch);
+                match tokio::time::timeout(Duration::from_secs(60), client.unary(tonic::Request::new(Msg::default()))).await {
+                    Err(_) => return Err("call hang".to_string()),
+                    Ok(Ok(_)) => "served",
+                    Ok(Err(_)) => "refused",
+                }
+            }
+        };
+        quiesce().await;
+        st.abort();
+        Ok(out)
+    });
+    drop(rt);
+    let entered = handler.total_entered.load(std::sync::atomic::Ordering::SeqCst);
+    match r {
+        Err(e) => ctx.violation("hang-or-setup", e),
+        Ok(what) => {
+            ctx.count(&format!("badca.{}", what));
+            // with optional client auth an anonymous client is legitimately served once the
+            // configuration is accepted; with required client auth it never is
+            if !optional && (what == "served" || entered != 0) {
+                ctx.violation_class("anonymous-client-served", vname, format!("a server configured to require client certificates from a CA file without a usable certificate ({}) served an anonymous client (handler ran {}x)", vname, entered));
+            }
+        }
+    }
+    ctx.fingerprint(format!("badca|{}|{}|{}", vname, optional as u8, ca_first as u8), true);
 }
